@@ -605,7 +605,7 @@ func (e *Engine) replay(fn *ssa.Function, ob *Obligation, dir string, overlay ma
 	}
 	pkgDir := filepath.Dir(e.fset.Position(fn.Pos()).Filename)
 	testPath := filepath.Join(pkgDir, "zz_verif_replay_test.go")
-	realTest := filepath.Join(dir, "replay_"+sanitize(ob.Name)+"_test.go")
+	realTest := filepath.Join(dir, fmt.Sprintf("replay_%s_%08x_test.go", sanitize(ob.Name), hashStr(ob.Func+"|"+ob.Name)))
 	os.WriteFile(realTest, []byte(src), 0o644)
 	ov := map[string]string{testPath: realTest}
 	for p, content := range overlay {
@@ -614,7 +614,7 @@ func (e *Engine) replay(fn *ssa.Function, ob *Obligation, dir string, overlay ma
 		ov[p] = f
 	}
 	ovb, _ := json.Marshal(map[string]any{"Replace": ov})
-	ovPath := filepath.Join(dir, "replay_"+sanitize(ob.Name)+".overlay.json")
+	ovPath := filepath.Join(dir, fmt.Sprintf("replay_%s_%08x.overlay.json", sanitize(ob.Name), hashStr(ob.Func+"|"+ob.Name)))
 	os.WriteFile(ovPath, ovb, 0o644)
 	ctx, cancel := context.WithTimeout(context.Background(), 90*time.Second)
 	defer cancel()
